@@ -50,9 +50,10 @@ def maxOf : List Nat → Option Nat
     | none => some x
     | some y => some (max x y)
 
-/-- length of the longest non-empty prefix of `s` matching `r` -/
-def Re.longest (r : Re) (s : List Char) : Option Nat :=
-  match maxOf ((Re.lens (s.length + 1) r s).filter (fun n => 0 < n)) with
+/-- length of the longest non-empty prefix of `s` matching `r`; `fuel` bounds the star iterations
+and is at least the length of `s` wherever this is used -/
+def Re.longest (fuel : Nat) (r : Re) (s : List Char) : Option Nat :=
+  match maxOf ((Re.lens fuel r s).filter (fun n => 0 < n)) with
   | some n => some n
   | none => none
 
@@ -80,21 +81,21 @@ def scanString : List Char → Bool → Nat → Option Nat
 
 /-- best rule at the head of `s`: longest match, ties by priority (later rule wins a full tie,
 which logos rejects at compile time) -/
-def bestRule : List Rule → List Char → Option (Rule × Nat) → Option (Rule × Nat)
+def bestRule (fuel : Nat) : List Rule → List Char → Option (Rule × Nat) → Option (Rule × Nat)
   | [], _, best => best
   | r :: rs, s, best =>
-    match r.re.longest s with
-    | none => bestRule rs s best
+    match r.re.longest fuel s with
+    | none => bestRule fuel rs s best
     | some n =>
       match best with
-      | none => bestRule rs s (some (r, n))
+      | none => bestRule fuel rs s (some (r, n))
       | some (r0, n0) =>
-        if n > n0 ∨ (n = n0 ∧ r.prio > r0.prio) then bestRule rs s (some (r, n))
-        else bestRule rs s best
+        if n > n0 ∨ (n = n0 ∧ r.prio > r0.prio) then bestRule fuel rs s (some (r, n))
+        else bestRule fuel rs s best
 
 /-- one token at the head of a non-empty `s`: `(kind, length)`, length ≥ 1 -/
-def nextToken (rules : List Rule) (errorKind : Kind) (s : List Char) : Kind × Nat :=
-  match bestRule rules s none with
+def nextToken (fuel : Nat) (rules : List Rule) (errorKind : Kind) (s : List Char) : Kind × Nat :=
+  match bestRule fuel rules s none with
   | none => (errorKind, 1)
   | some (r, n) =>
     match r.cb with
@@ -108,7 +109,7 @@ def lexFuel (rules : List Rule) (errorKind : Kind) : Nat → List Char → List 
   | 0, _ => []
   | _, [] => []
   | f + 1, s =>
-    let (k, n) := nextToken rules errorKind s
+    let (k, n) := nextToken (f + 1) rules errorKind s
     let n := if n = 0 then 1 else n
     (k, s.take n) :: lexFuel rules errorKind f (s.drop n)
 
